@@ -10,11 +10,14 @@ TECHNIQUE = ("Coq theorems over all strings/states/tapes about the Gallina model
              "unsafe components are refused with EINVAL before any backend call, walks go one component at a time through directories; "
              "tied to the code by go2coq HandlerGen (checked string fields) and a hostile-name differential")
 LEVEL_TEXT = ("checkSafeName is proved equivalent to 'not empty, not . or .., no slash' by induction on the string; the model of every handler is proved to pass only safe names "
-              "to the backend from any state whose path tree holds safe names (an invariant of every history); every run re-checks the proofs, re-extracts which string fields "
+              "to the backend from any state whose path tree holds safe names (an invariant of every history), and to issue a named Walk/WalkGetAttr only on the File of a fidRef recorded as a directory (every history, every tape); every run re-checks the proofs, re-extracts which string fields "
               "of the T-messages are checked before any LookupFID, and drives the real server with hostile names in every name position.")
 LEVEL_NOTE = ("Trusted: Coq kernel + vm_compute; hand model tied by HandlerGen.v and the differential; Go strings.Contains/Split modelled by contains_char/split_on (bytes). "
               "Server/Summaries.v model_traces is a hand-reviewed transcript of the alpha-normalised (local names positional) source traces, not derived from Handlers.v; "
-              "only its guard sequences are rendered from the model's guard table. C09_dirs_only_step is stated per walk step (three one-step unfoldings of walk_loop), not over histories.")
+              "only its guard sequences are rendered from the model's guard table. 'Only through directories' is a history theorem since round 5 (C09_dirs_only_every_history, "
+              "Server/DirsHist.v: log invariant over every primitive and handler): the receiver of every named Walk/WalkGetAttr call of every history is the File of a fidRef whose RECORDED "
+              "type is a directory; that the recorded type is the reported one is per construction site (walk components: C09_recorded_type_is_reported; attach: GetAttr's answer) and is "
+              "judged on observed answers only by c09_step.")
 DESIGN_REF = "6/C09"
 ASSUMPTIONS = [
     "names longer than 65535 bytes cannot be sent (9P string length is 16 bits)",
@@ -24,7 +27,8 @@ TRUSTED_BASE = [
     "Coq 8.16.1 kernel, vm_compute",
     "axioms: none",
     "go2coq HandlerGen + ConstGen",
-    "hand-written model Server/*.v; harness/p9/vhsrv_*_test.go, c09_names_test.go",
+    "hand-written model Server/*.v; harness/p9/vhsrv_*_test.go, c04_hist_test.go (fixed-history runner), c09_names_test.go",
+    "lib/vsrv.py (python translation of observed histories into Coq cases: to_case / cases_text)",
 ]
 WHICH = "P09"
 TEST = "^TestVerifC09$"
